@@ -187,7 +187,8 @@ func ParseTokensC17(max int) (bool, []int) {
 	rc := condParse(lx)
 	ok := rc == 0 && lx.errors == 0
 	// the parser must report every failure through Error (Parser.Parse only looks at the error list)
-	vrt.Assert((rc == 0) == (lx.errors == 0), "C17/parser-return-code-and-error-callback-agree")
+	// (an illegal token makes the lexer itself record an error and end the input, so rc == 0 with errors > 0 is fine)
+	vrt.Assert(rc == 0 || lx.errors > 0, "C17/parser-failure-is-reported-through-error-callback")
 	if ok {
 		vrt.Assert(parseNode != nil, "C17/accepted-input-has-ast")
 	}
